@@ -93,3 +93,11 @@ Proof.
   induction l as [|x l IH]; simpl; [tauto|]. rewrite in_app_iff, in_map_iff.
   intros [(y & E & Hy)|H]; [inversion E; subst; auto|]. destruct (IH H); auto.
 Qed.
+
+Lemma NoDup_app_inv_rev {A} (l1 l2 : list A) : NoDup l1 -> NoDup l2 -> (forall x, In x l1 -> In x l2 -> False) -> NoDup (l1 ++ l2).
+Proof.
+  induction l1 as [|a l1 IH]; simpl; intros N1 N2 D; auto.
+  inversion N1 as [|? ? Hn Hd]; subst. constructor.
+  - intro Hin. apply in_app_or in Hin as [H|H]; [auto|eapply D; eauto].
+  - apply IH; auto. intros x Hx. apply D. auto.
+Qed.
